@@ -22,6 +22,7 @@ def run(rep, tier, seed):
     run_class_init(rep, tier, seed)
     # from the wire: what the parser does to element data before the converters see it, and whole documents end to end
     run_contracts(rep, "contracts.parser", tier, seed, select=lambda c: c.target.endswith("._groomstring"), accept_props=["C02"])
+    run_contracts(rep, "contracts.parser_native", tier, seed)       # the C03 clause there: CDATA content is literal (bounded)
     run_contracts(rep, "contracts.roundtrip_native", tier, seed, select=lambda c: c.target.endswith("OFXClient.serialize"), accept_props=["C01"])
     from props.tables import run_tables
     run_tables(rep, rep.prop)
